@@ -74,6 +74,9 @@ func eval(c Case) *pbt.Fail {
 			b    []byte
 		}{{"II", c.II}, {"MM", c.MM}} {
 			in := enc.b
+			if entry == "ExifParse" && c.Tail > 0 && len(enc.b)-c.Tail >= 64 && len(enc.b)%2 == 0 {
+				in = enc.b[:len(enc.b)-c.Tail] // the bare block without trailing bytes (still >= 28 bytes after the signature)
+			}
 			if entry == "DecodeJPEG" {
 				if in = jpegExact(enc.b, c.Tail); in == nil {
 					continue
